@@ -278,3 +278,57 @@ func (p *Program) isPartField(f *types.Var) bool {
 	}
 	return p.partOf(nt)
 }
+
+// topOwner: the outermost repository struct a part belongs to (see OwnerName).
+func (p *Program) topOwner(nt *types.Named) *types.Named {
+	p.OwnerName(nt) // (fills p.embedders)
+	seen := map[*types.TypeName]bool{}
+	for {
+		tn := nt.Obj()
+		es := p.embedders[tn]
+		if seen[tn] || len(es) != 1 || es[0] == nil || tn.Exported() {
+			return nt
+		}
+		seen[tn] = true
+		nt = es[0]
+	}
+}
+
+// FieldKey: "Owner.field" under the names the rules know; when two parts of one struct each have a field
+// of that name (counters.mu and tags.mu), the part's type is included so that the two stay distinct.
+func (p *Program) FieldKey(nt *types.Named, f *types.Var) string {
+	top := p.topOwner(nt)
+	name := p.FieldName(f)
+	n := 0
+	for _, g := range p.deepFields(top, 0) {
+		if p.FieldName(g) == name {
+			n++
+		}
+	}
+	owner := typeDisplay(top.Obj())
+	if n > 1 {
+		if part := p.declaringPart(top, f, 0); part != nil && part != top {
+			return owner + "." + typeDisplay(part.Obj()) + "." + name
+		}
+	}
+	return owner + "." + name
+}
+
+func (p *Program) declaringPart(nt *types.Named, f *types.Var, depth int) *types.Named {
+	st, ok := nt.Underlying().(*types.Struct)
+	if !ok || depth > 3 {
+		return nil
+	}
+	for i := 0; i < st.NumFields(); i++ {
+		g := st.Field(i)
+		if g == f {
+			return nt
+		}
+		if inner, ok := derefNamedT(g.Type()); ok && inner.Obj().Pkg() != nil && isRepoPkg(inner.Obj().Pkg()) {
+			if d := p.declaringPart(inner, f, depth+1); d != nil && p.partOf(inner) {
+				return d
+			}
+		}
+	}
+	return nil
+}
